@@ -33,12 +33,14 @@ def make_device(kind: str, rng=None, *, length_units="um", xi=0.5, gamma=10.0, u
     P = tdgl.Polygon
     holes, terms, probe_pts = [], [], None
     W, H = 5.0 * s, 3.0 * s
-    if kind in ("bar", "bar_hole", "bar3", "cross4"):
+    if kind in ("bar", "bar_hole", "bar3", "cross4", "bar_thick"):
         film = P("film", points=box(W, H, points=41))
         if terminals:
+            # "bar_thick": contact pads that overlap the film by 0.8 (several mesh edges), not slivers on its edge
+            tw = 1.6 * s if kind == "bar_thick" else 0.1 * s
             terms = [
-                P("source", points=box(0.1 * s, H * 0.9, center=(-W / 2, 0))),
-                P("drain", points=box(0.1 * s, H * 0.9, center=(W / 2, 0))),
+                P("source", points=box(tw, H * 0.9, center=(-W / 2, 0))),
+                P("drain", points=box(tw, H * 0.9, center=(W / 2, 0))),
             ]
             if kind in ("bar3", "cross4"):
                 terms.append(P("top", points=box(W * 0.4, 0.1 * s, center=(0, H / 2))))
